@@ -1,10 +1,24 @@
 """C15 - FFI isolation is transparent: value codec round trip (DESIGN 5/C15)."""
 META = {
     "level": "proof",
-    "trusted_base": ["contracts/spec_cop.h spec functions (wire format written from the comment block in cop_protocol.h)",
-                     "contracts/cop_contracts.h"],
-    "assumptions": [],
-    "undecided_part": "",
+    "trusted_base": [
+        "contracts/spec_cop.h spec functions (wire format written from the comment block in cop_protocol.h: tag byte, little-endian 8-byte payloads, bool 0/1, u32 length + bytes)",
+        "contracts/cop_contracts.h: heap-layer contracts vm_string_new / vm_array_new / vm_array_push are ASSUMED here (used to replace the calls; not enforced by this unit)",
+        "CBMC built-in model of memcpy",
+    ],
+    "assumptions": [
+        "per tag kind: C15.ser.k and C15.dec.k enforce the REAL function against an exact contract (buffer object exactly as long as the image, so any access beyond it is out of bounds); C15.codec.k is a lemma proved from the two contracts alone (both replaced)",
+        "scalar kinds covered: void, int, float (compared as 64-bit patterns: NaN payloads, -0.0, inf), bool, opaque; the payload compared is the union member the tag names (bool: 0/1; other union bytes of a bool/void value are not part of the value)",
+        "strings: any content, any length <= 2^32-6 (ghost length, ghost index into the content); the string object handed to the serialiser is sizeof(VmString)+len bytes, i.e. not even the NUL terminator may be read",
+        "a NULL string pointer is serialised as the empty string and comes back as a non-NULL empty string (observable difference, recorded)",
+        "vm_string_new may return an interned existing string in the real heap; its contract says fresh object: sound for callers that hold no other VmString pointer (the deserialiser); in the round trip only length and content are compared, never pointers",
+        "recursive calls of the array arm are replaced by the contract itself (goto-instrument --enforce-contract-rec); for non-array tags the array loop is proved dead (unwindset 1 + unwinding assertion)",
+        "arrays: NOT covered: the bounded stand-in h_art (real serialiser, deserialiser and heap.c) exhausts 12 GB even at depth 1 / count <= 1 and is not registered (see undecided_part)",
+        "tags outside the transferable set (u8, bstring, struct, enum, union, function, tuple, hashmap, >= 0x0F) are serialised as the tag byte only and come back as void: recorded by C15.other.*, outside the property",
+        "C15.reqbuf.argc1 covers ONE scalar-or-string argument; vm_ffi_call_cop also silently drops arguments beyond the 16th (argc is sent as arg_count): not covered by an obligation",
+        "C15.ser.string.anylen and C15.reqbuf.argc1 are EXPECTED to be refuted on the unchanged tree (uint32 wrap of 5+len for len >= 2^32-5; fixed 8192-byte request buffer); both reproduce natively (replay/replay_cop.c strser / args)",
+    ],
+    "undecided_part": "arrays (flat or nested): no round-trip obligation closes, bounded or not; whole-program equality of output between nano_vm and nano_vm --isolate-ffi; behaviour of the foreign functions in another process (locale, cwd, fds); handle_ffi_req in cop_main.c (same-callee) is not under contract",
 }
 
 HARNESS = "harness/cop_h.c"
@@ -52,4 +66,25 @@ def obligations(repo):
                     replace=["cop_serialize_value", "cop_deserialize_value"], unwind=6, strength="U",
                     functions=["cop_serialize_value", "cop_deserialize_value"],
                     must_have=[r"precondition", r"C15\.codec", r"COVER"], min_checks=20))
+    # tags outside the transferable set: recorded behaviour (tag byte only; comes back as void)
+    do = {"COP_VIEW_OTHER": 1}
+    obs.append(dict(id="C15.other.ser", prop="C15", harness=HARNESS, entry="h_oser", defines=do,
+                    gi_flags=rec("cop_serialize_value"), replace=HEAPREPL, unwind=6, unwindset=[SERLOOP + ":1"], strength="U",
+                    functions=["cop_serialize_value"], must_have=[r"cop_serialize_value\.postcondition", r"COVER"], min_checks=30))
+    obs.append(dict(id="C15.other.dec", prop="C15", harness=HARNESS, entry="h_odec", defines=do,
+                    gi_flags=rec("cop_deserialize_value"), replace=HEAPREPL, unwind=6, unwindset=[DECLOOP + ":1"], strength="U",
+                    functions=["cop_deserialize_value"], must_have=[r"cop_deserialize_value\.postcondition", r"COVER"], min_checks=30))
+    # arrays: h_art in harness/cop_h.c (-DCOP_VIEW_ARRAY) is a bounded round trip through the REAL serialiser, deserialiser and
+    # heap.c (B(depth <= 2, count <= 2)).  It is NOT registered: even B(depth 1, count <= 1, 16-byte buffer) runs the SAT
+    # back end out of 12 GB (calloc / realloc of a symbolic element count in vm_array_new / array_grow), and the variant
+    # with the heap layer replaced by contracts did not get through symbolic execution in 15 min.  Arrays are therefore
+    # an undecided part of C15 (see META); their memory safety on arbitrary bytes is C16.deser.safe.array.
+    # request buffer: vm_ffi_call_cop builds the request in uint8_t payload[8192]
+    CREPL = ["cop_serialize_value", "cop_deserialize_value", "cop_send", "cop_recv_header", "cop_recv_payload", "vm_ffi_call", "vm_ffi_cop_start"]
+    obs.append(dict(id="C15.reqbuf.argc1", prop="C15", harness="harness/cop_call_h.c", entry="h_call", defines={"COP_REQBUF": 1},
+                    enforce="vm_ffi_call_cop", replace=CREPL, sources=["src/nanovm/cop_protocol.c"], unwind=8,
+                    unwindset=["vm_ffi_call_cop_wrapped_for_contract_checking.0:3"], strength="U",
+                    functions=["vm_ffi_call_cop"], timeout=900, weight=20,
+                    must_have=[r"vm_ffi_call_cop\.postcondition", r"cop_serialize_value\.precondition", r"COVER"], min_checks=100,
+                    witness={"replayer": "cop"}))
     return obs
